@@ -1769,6 +1769,610 @@ GENERATORS["Biccs"] = gen_biccs
 
 
 # ---------------------------------------------------------------------------------------------------------
+# stat.run_stat: the initial counters, the body of the record loop statement by statement, the loop over the CIGAR
+# tokens, and the arithmetic of the report (C19)
+
+_STAT_PRELUDE = '''import Gaftools.Model.Stat
+/-! %s -/
+namespace Gaftools.Gen
+open Gaftools.Gaf Gaftools.Stat
+
+/-- the dictionary `reads` (insertion ordered, keyed by the read name stored in each object) as the model holds it:
+    `k in reads`, `reads[k]` (a missing key is a KeyError in Python: here a dummy), `reads[k] = v`, `reads[k].attr = …` -/
+def rdHas (d : List ReadAgg) (k : Str) : Bool := d.any (·.name == k)
+def rdGet (d : List ReadAgg) (k : Str) : ReadAgg := (d.find? (·.name == k)).getD ⟨k, 0, 0⟩
+def rdPut (d : List ReadAgg) (k : Str) (v : ReadAgg) : List ReadAgg :=
+  if rdHas d k then d.map (fun a => if a.name == k then v else a) else d ++ [v]
+def rdUpd (d : List ReadAgg) (k : Str) (f : ReadAgg → ReadAgg) : List ReadAgg := d.map (fun a => if a.name == k then f a else a)
+
+/-- `range(start, stop, step)` for literals `0 ≤ start`, `0 < step` (the translator checks both) -/
+def pyRange (start stop step : Int) : List Nat :=
+  (List.range ((stop - start + step - 1) / step).toNat).map (fun i => start.toNat + step.toNat * i)
+
+/-- what a `print` of the report shows after its label: an integer, `round(q, digits)`, a `%%`-format filled with integers, nothing -/
+inductive RVal where
+  | nat (n : Nat)
+  | round (q : Rat) (digits : Nat)
+  | fmt (f : String) (args : List Nat)
+  | text
+deriving DecidableEq
+
+'''
+
+
+def gen_stat_loop():
+    _, src = src_of("gaftools/cli/stat.py")
+    mod = ast.parse(src)
+    fn = find_func(mod, "run_stat")
+    _, gsrc = src_of("gaftools/gaf.py")
+    read_init = find_func(ast.parse(gsrc), "__init__", cls="Read")
+    imported = {a.name for n in mod.body if isinstance(n, ast.ImportFrom) and n.module == "gaftools.gaf" for a in n.names if a.asname is None}
+    if not {"GAF", "Read"} <= imported:
+        raise Untranslatable("GAF / Read are not the classes of gaftools.gaf")
+    FLAG = "cigar_stat"
+    if FLAG not in [a.arg for a in fn.args.args]:
+        raise Untranslatable("run_stat has no parameter %s" % FLAG)
+    # python variable -> field of the model's state; attribute of a record / of a Read -> field of the model's structures
+    STATE = {"total_aligned_bases": "bases", "total_mapq": "mapqSum", "total_primary": "primary", "total_secondary": "secondary",
+             "total_del": "cig.del", "total_del_large": "cig.delL", "total_ins": "cig.ins", "total_ins_large": "cig.insL",
+             "total_x": "cig.x", "total_x_large": "cig.xL", "total_match": "cig.m", "total_match_large": "cig.mL",
+             "total_perfect": "cig.perfect"}
+    DICT = "reads"
+    REC = {"query_name": ("qname", "Str"), "query_length": ("qlen", "Nat"), "query_start": ("qs", "Nat"), "query_end": ("qe", "Nat"),
+           "residue_matches": ("nmatch", "Nat"), "alignment_block_length": ("blen", "Nat"), "mapping_quality": ("mapq", "Nat"),
+           "is_primary": ("isPrimary", "Bool"), "cigar": ("cigar", "Str")}
+    READ = {"rname": "name", "highest_map_ratio": "bestRatio", "highest_seq_identity": "bestId"}
+    INFRA = ("timers", "output", "gaf_file", "total_time")
+
+    def is_doc(st):
+        return isinstance(st, ast.Expr) and isinstance(st.value, ast.Constant) and isinstance(st.value.value, str)
+
+    # ---- Read.__init__: which constructor argument ends up in which attribute
+    rparams = [a.arg for a in read_init.args.args][1:]
+    rstore = {}
+    for st in read_init.body:
+        if is_doc(st):
+            continue
+        if not (isinstance(st, ast.Assign) and len(st.targets) == 1 and isinstance(st.targets[0], ast.Attribute)
+                and ast.unparse(st.targets[0].value) == "self"):
+            raise Untranslatable("Read.__init__: %s" % ast.unparse(st)[:60])
+        rstore[st.targets[0].attr] = st.value
+    for a in READ:
+        if not (a in rstore and isinstance(rstore[a], ast.Name) and rstore[a].id in rparams):
+            raise Untranslatable("Read.__init__ does not store a parameter in %s" % a)
+
+    # ---- which attributes of a Read are ever read in run_stat (the others are write-only: dropped)
+    parents = {}
+    for p in ast.walk(fn):
+        for c in ast.iter_child_nodes(p):
+            parents[c] = p
+    top = [st for st in fn.body if not is_doc(st)]
+    loops = [st for st in top if isinstance(st, ast.For)]
+    if len(loops) != 2:
+        raise Untranslatable("run_stat has %d top-level loops, expected the record loop and the loop over the reads" % len(loops))
+    rec_loop, sum_loop = loops
+    # the loop over the reads: `for k, v in reads.items()` / `for v in reads.values()`
+    it = ast.unparse(sum_loop.iter)
+    if it == DICT + ".items()" and isinstance(sum_loop.target, ast.Tuple) and len(sum_loop.target.elts) == 2 and all(isinstance(x, ast.Name) for x in sum_loop.target.elts):
+        rvar = sum_loop.target.elts[1].id
+        if any(isinstance(n, ast.Name) and n.id == sum_loop.target.elts[0].id for st in sum_loop.body for n in ast.walk(st)):
+            raise Untranslatable("the loop over the reads uses the key")
+    elif it == DICT + ".values()" and isinstance(sum_loop.target, ast.Name):
+        rvar = sum_loop.target.id
+    else:
+        raise Untranslatable("loop over the reads: for %s in %s" % (ast.unparse(sum_loop.target), it))
+    if sum_loop.orelse or rec_loop.orelse:
+        raise Untranslatable("for ... else")
+
+    def is_read_obj(e):
+        return (isinstance(e, ast.Subscript) and isinstance(e.value, ast.Name) and e.value.id == DICT) or \
+               (isinstance(e, ast.Name) and e.id == rvar and any(parents.get(x) is sum_loop or x is sum_loop for x in _ancestors(e, parents)))
+    live = set()
+    for n in ast.walk(fn):
+        if isinstance(n, ast.Attribute) and is_read_obj(n.value):
+            p = parents.get(n)
+            if isinstance(n.ctx, ast.Load):
+                live.add(n.attr)
+            elif not (isinstance(p, (ast.Assign, ast.AugAssign))):
+                raise Untranslatable("attribute %s of a Read used in %s" % (n.attr, type(p).__name__))
+    if not live <= set(READ):
+        raise Untranslatable("run_stat reads attributes of a Read outside the model: %s" % sorted(live - set(READ)))
+    # the dictionary itself may only be used through `in`, subscripts, len() and the loop over it
+    for n in ast.walk(fn):
+        if isinstance(n, ast.Name) and n.id == DICT:
+            p = parents.get(n)
+            ok = (isinstance(p, ast.Subscript) and p.value is n) or (isinstance(p, ast.Compare) and n in p.comparators) \
+                or (isinstance(p, ast.Call) and ast.unparse(p.func) == "len") or (isinstance(p, ast.Attribute) and parents.get(p) is not None and parents[parents[p]] is sum_loop) \
+                or (isinstance(p, ast.Assign) and n in p.targets)
+            if not ok:
+                raise Untranslatable("the dictionary is used in %s" % ast.unparse(p)[:60])
+
+    # ---- the record loop header: for <count>, <record> in enumerate(<GAF(gaf_path)>.read_file(), <start>)
+    tg, itc = rec_loop.target, rec_loop.iter
+    if not (isinstance(tg, ast.Tuple) and len(tg.elts) == 2 and all(isinstance(x, ast.Name) for x in tg.elts)
+            and isinstance(itc, ast.Call) and ast.unparse(itc.func) == "enumerate" and len(itc.args) in (1, 2)):
+        raise Untranslatable("record loop header: for %s in %s" % (ast.unparse(tg), ast.unparse(itc)))
+    COUNT, RECV = tg.elts[0].id, tg.elts[1].id
+    start = itc.args[1] if len(itc.args) == 2 else None
+    for k in itc.keywords:
+        if k.arg == "start" and start is None:
+            start = k.value
+        else:
+            raise Untranslatable("enumerate keyword %s" % k.arg)
+    start = 0 if start is None else (start.value if isinstance(start, ast.Constant) and type(start.value) is int else None)
+    if start is None or start < 1:
+        raise Untranslatable("enumerate start must be an integer literal >= 1 (the count before the first record is start - 1)")
+    src_it = itc.args[0]
+    if not (isinstance(src_it, ast.Call) and not src_it.args and not src_it.keywords and isinstance(src_it.func, ast.Attribute)
+            and src_it.func.attr == "read_file" and isinstance(src_it.func.value, ast.Name)):
+        raise Untranslatable("records come from %s" % ast.unparse(src_it))
+    FILEV = src_it.func.value.id
+    for nm in (COUNT, RECV):
+        if nm in STATE or nm in (DICT, FLAG) or nm in INFRA:
+            raise Untranslatable("loop variable %s" % nm)
+    for n in ast.walk(fn):                     # the loop variables are not assigned anywhere else
+        if isinstance(n, ast.Name) and n.id in (COUNT, RECV) and not isinstance(n.ctx, ast.Load) and parents.get(n) is not tg:
+            raise Untranslatable("%s is assigned outside the loop header" % n.id)
+
+    # ---- expressions
+    def chars(v):
+        if not all(32 <= ord(c) < 127 and c not in "'\\" for c in v):
+            raise Untranslatable("string literal %r" % v)
+        return "([%s] : Str)" % ", ".join("'%s'" % c for c in v)
+
+    def to_int(x):
+        t, ty = x
+        if ty == "Nat":
+            return "(%s : Int)" % t
+        if ty == "Int":
+            return t
+        if ty == "Lit":
+            return "(%s : Int)" % t
+        raise Untranslatable("an integer is expected: %s : %s" % (t, ty))
+
+    def to_rat(x):
+        t, ty = x
+        if ty == "Rat":
+            return t
+        if ty == "Nat":
+            return "((%s : Int) : Rat)" % t
+        if ty == "Int":
+            return "((%s : Int) : Rat)" % t          # the cast of the integer result, not of its operands
+        if ty == "Lit":
+            return "(%s : Rat)" % t
+        raise Untranslatable("a number is expected: %s : %s" % (t, ty))
+
+    def to_nat(x):
+        t, ty = x
+        if ty in ("Nat", "Lit"):
+            return t
+        raise Untranslatable("a counter is expected: %s : %s" % (t, ty))
+
+    def state_get(name):
+        return "s.%s" % STATE[name]
+
+    def state_set(field, val):
+        if "." in field:
+            a, b = field.split(".")
+            return "{ s with %s := { s.%s with %s := %s } }" % (a, a, b, val)
+        return "{ s with %s := %s }" % (field, val)
+
+    def E(e, env):
+        """-> (lean term, type); types: Nat Int Rat Lit(eral) Str Bool ListStr Read"""
+        if isinstance(e, ast.Constant):
+            v = e.value
+            if type(v) is int and v >= 0:
+                return (str(v), "Lit")
+            if type(v) is float and v == int(v) and v >= 0:
+                return ("(%d : Rat)" % int(v), "Rat")
+            if type(v) is str:
+                return (chars(v), "Str")
+            raise Untranslatable("constant %r" % (v,))
+        if isinstance(e, ast.Name):
+            if e.id in env:
+                return env[e.id]
+            if e.id in STATE:
+                return (state_get(e.id), "Nat")
+            if e.id == COUNT:
+                return ("s.total", "Nat")
+            if e.id == FLAG:
+                return ("cigarStat", "Bool")
+            raise Untranslatable("name %s" % e.id)
+        if isinstance(e, ast.Attribute):
+            if isinstance(e.value, ast.Name) and e.value.id == RECV and RECV in env:
+                if e.attr not in REC:
+                    raise Untranslatable("attribute %s of the record" % e.attr)
+                return ("r.%s" % REC[e.attr][0], REC[e.attr][1])
+            o = E(e.value, env)
+            if o[1] == "Read" and e.attr in READ:
+                return ("%s.%s" % (o[0], READ[e.attr]), "Str" if e.attr == "rname" else "Rat")
+            raise Untranslatable("attribute " + ast.unparse(e))
+        if isinstance(e, ast.Subscript):
+            if isinstance(e.value, ast.Name) and e.value.id == DICT:
+                k = E(e.slice, env)
+                if k[1] != "Str":
+                    raise Untranslatable("dictionary key " + ast.unparse(e.slice))
+                return ("(rdGet s.reads %s)" % k[0], "Read")
+            o, i = E(e.value, env), E(e.slice, env)
+            if o[1] == "ListStr" and i[1] in ("Nat", "Lit"):
+                return ("(%s.getD %s [])" % (o[0], i[0]), "Str")
+            raise Untranslatable("subscript " + ast.unparse(e))
+        if isinstance(e, ast.BinOp):
+            l, r = E(e.left, env), E(e.right, env)
+            num = ("Nat", "Int", "Rat", "Lit")
+            if l[1] not in num or r[1] not in num:
+                raise Untranslatable("arithmetic on " + ast.unparse(e))
+            if isinstance(e.op, ast.Div):
+                return ("(%s / %s)" % (to_rat(l), to_rat(r)), "Rat")
+            if isinstance(e.op, (ast.Add, ast.Sub)):
+                sym = "+" if isinstance(e.op, ast.Add) else "-"
+                if "Rat" in (l[1], r[1]):
+                    return ("(%s %s %s)" % (to_rat(l), sym, to_rat(r)), "Rat")
+                if isinstance(e.op, ast.Add) and "Int" not in (l[1], r[1]):
+                    return ("(%s + %s)" % (l[0], r[0]), "Lit" if (l[1], r[1]) == ("Lit", "Lit") else "Nat")
+                return ("(%s %s %s)" % (to_int(l), sym, to_int(r)), "Int")      # Python integers: a difference may be negative
+            raise Untranslatable("operator in " + ast.unparse(e))
+        if isinstance(e, ast.Call) and isinstance(e.func, ast.Name) and not e.keywords:
+            f, a = e.func.id, e.args
+            if f == "float" and len(a) == 1:
+                return (to_rat(E(a[0], env)), "Rat")
+            if f == "int" and len(a) == 1:
+                x = E(a[0], env)
+                if x[1] == "Str":
+                    return ("(toNat %s)" % x[0], "Nat")
+                if x[1] in ("Nat", "Int", "Lit"):
+                    return x
+            if f == "len" and len(a) == 1:
+                if isinstance(a[0], ast.Name) and a[0].id == DICT:
+                    return ("s.reads.length", "Nat")
+                x = E(a[0], env)
+                if x[1] in ("ListStr", "Str"):
+                    return ("%s.length" % x[0], "Nat")
+            if f == "str" and len(a) == 1:
+                x = E(a[0], env)
+                if x[1] in ("Nat", "Str"):
+                    return x
+        # the tokeniser idiom: runs of digits / non-digits
+        if isinstance(e, ast.ListComp):
+            m = re.fullmatch(r"\[''\.join\((\w+)\) for (\w+), (\w+) in itertools\.groupby\((\w+), key=str\.isdigit\)\]", ast.unparse(e))
+            if m and m.group(1) == m.group(3) and m.group(2) != m.group(3):
+                x = E(ast.Name(id=m.group(4), ctx=ast.Load()), env)
+                if x[1] == "Str":
+                    return ("(groupDigits %s)" % x[0], "ListStr")
+        raise Untranslatable("expression " + ast.unparse(e)[:80])
+
+    def C(e, env):
+        """a test -> Lean Bool"""
+        if isinstance(e, ast.BoolOp):
+            return "(" + (" && " if isinstance(e.op, ast.And) else " || ").join(C(x, env) for x in e.values) + ")"
+        if isinstance(e, ast.UnaryOp) and isinstance(e.op, ast.Not):
+            return "(!%s)" % C(e.operand, env)
+        if isinstance(e, ast.Compare) and len(e.ops) == 1:
+            t, le, re_ = type(e.ops[0]), e.left, e.comparators[0]
+            if t in (ast.In, ast.NotIn):
+                if isinstance(re_, ast.Name) and re_.id == DICT:
+                    k = E(le, env)
+                    if k[1] != "Str":
+                        raise Untranslatable("dictionary key " + ast.unparse(le))
+                    return ("(rdHas s.reads %s)" if t is ast.In else "(!rdHas s.reads %s)") % k[0]
+                raise Untranslatable("membership test " + ast.unparse(e))
+            l, r = E(le, env), E(re_, env)
+            if l[1] == "Str" and r[1] == "Str" and t in (ast.Eq, ast.NotEq):
+                return ("(%s == %s)" if t is ast.Eq else "(%s != %s)") % (l[0], r[0])
+            op = {ast.Lt: "<", ast.Gt: ">", ast.Eq: "=", ast.LtE: "≤", ast.GtE: "≥", ast.NotEq: "≠"}.get(t)
+            if op is None:
+                raise Untranslatable("comparison " + ast.unparse(e))
+            if "Rat" in (l[1], r[1]):
+                return "decide (%s %s %s)" % (to_rat(l), op, to_rat(r))
+            return "decide (%s %s %s)" % (to_int(l), op, to_int(r))
+        x = E(e, env)
+        if x[1] == "Bool":
+            return x[0]
+        raise Untranslatable("truth value of " + ast.unparse(e)[:60])       # truthiness of numbers / strings: not in the subset
+
+    # ---- statements of a loop body, state passing
+    def escapes(stmts):
+        for st in stmts:
+            if isinstance(st, (ast.Continue, ast.Break, ast.Return)):
+                return True
+            if isinstance(st, ast.If) and (escapes(st.body) or escapes(st.orelse)):
+                return True
+            if isinstance(st, (ast.With, ast.Try, ast.While)):
+                raise Untranslatable("statement " + type(st).__name__)
+        return False
+
+    inner_defs = []
+
+    def read_target(t, env):
+        """reads[K].attr -> (K as lean, attr)"""
+        if isinstance(t, ast.Attribute) and isinstance(t.value, ast.Subscript) and isinstance(t.value.value, ast.Name) and t.value.value.id == DICT:
+            k = E(t.value.slice, env)
+            if k[1] != "Str":
+                raise Untranslatable("dictionary key " + ast.unparse(t.value.slice))
+            return k[0], t.attr
+        return None
+
+    def ex(stmts, ind, env):
+        pad = " " * ind
+        if not stmts:
+            return pad + "s"
+        st, rest = stmts[0], stmts[1:]
+        u = ast.unparse(st)
+        if is_doc(st) or isinstance(st, ast.Pass):
+            return ex(rest, ind, env)
+        if isinstance(st, ast.Continue):
+            return pad + "s"
+
+        def upd(text, note=""):
+            return "%slet s : St := %s%s\n%s" % (pad, text, note, ex(rest, ind, env))
+        if isinstance(st, ast.If):
+            c = C(st.test, env)
+            if escapes(st.body) or escapes(st.orelse):
+                return "%sif %s then\n%s\n%selse\n%s" % (pad, c, ex(st.body + rest, ind + 2, env), pad, ex(st.orelse + rest, ind + 2, env))
+            # neither branch leaves the iteration: the branches produce the next state, locals bound inside stay inside
+            return "%slet s : St :=\n%s  if %s then\n%s\n%s  else\n%s\n%s" % (
+                pad, pad, c, ex(st.body, ind + 4, dict(env)), pad, ex(st.orelse, ind + 4, dict(env)), ex(rest, ind, env))
+        if isinstance(st, ast.Assign) and len(st.targets) == 1:
+            t = st.targets[0]
+            if isinstance(t, ast.Name):
+                if t.id in STATE or t.id in (DICT, FLAG, COUNT, RECV) or t.id in INFRA:
+                    raise Untranslatable("assignment to %s in the loop" % t.id)
+                v = E(st.value, env)
+                ty = {"Nat": "Nat", "Int": "Int", "Rat": "Rat", "Str": "Str", "ListStr": "List Str", "Lit": "Nat"}.get(v[1])
+                if ty is None:
+                    raise Untranslatable("local %s : %s" % (t.id, v[1]))
+                env2 = dict(env)
+                env2[t.id] = ("v_" + t.id, "Nat" if v[1] == "Lit" else v[1])
+                return "%slet v_%s : %s := %s\n%s" % (pad, t.id, ty, v[0], ex(rest, ind, env2))
+            if isinstance(t, ast.Subscript) and isinstance(t.value, ast.Name) and t.value.id == DICT:
+                k = E(t.slice, env)
+                c = st.value
+                if not (k[1] == "Str" and isinstance(c, ast.Call) and isinstance(c.func, ast.Name) and c.func.id == "Read"
+                        and len(c.args) == len(rparams) and not c.keywords):
+                    raise Untranslatable("dictionary assignment " + u[:70])
+                arg = dict(zip(rparams, c.args))
+                flds = {a: E(arg[rstore[a].id], env) for a in READ}
+                if flds["rname"] != k:
+                    raise Untranslatable("the object stored under %s is named %s" % (k[0], flds["rname"][0]))
+                return upd("{ s with reads := rdPut s.reads %s (⟨%s, %s, %s⟩ : ReadAgg) }" % (
+                    k[0], flds["rname"][0], to_rat(flds["highest_map_ratio"]), to_rat(flds["highest_seq_identity"])))
+            rt = read_target(t, env)
+            if rt:
+                if rt[1] not in live:
+                    return upd("s", "   -- reads[…].%s is never read: dropped" % rt[1])
+                if rt[1] == "rname":
+                    raise Untranslatable("the name of a Read is reassigned")
+                return upd("{ s with reads := rdUpd s.reads %s (fun a => { a with %s := %s }) }" % (rt[0], READ[rt[1]], to_rat(E(st.value, env))))
+        if isinstance(st, ast.AugAssign) and isinstance(st.op, ast.Add):
+            t = st.target
+            if isinstance(t, ast.Name) and t.id in STATE:
+                return upd(state_set(STATE[t.id], "%s + %s" % (state_get(t.id), to_nat(E(st.value, env)))))
+            rt = read_target(t, env)
+            if rt:
+                if rt[1] not in live:
+                    return upd("s", "   -- reads[…].%s is never read: dropped" % rt[1])
+                if rt[1] == "rname":
+                    raise Untranslatable("the name of a Read is reassigned")
+                return upd("{ s with reads := rdUpd s.reads %s (fun a => { a with %s := a.%s + %s }) }" % (rt[0], READ[rt[1]], READ[rt[1]], to_rat(E(st.value, env))))
+        if isinstance(st, ast.For):
+            # for <v> in range(<literal>, <stop>, <literal>): its body becomes a definition of its own, folded over the range
+            it = st.iter
+            if not (isinstance(st.target, ast.Name) and isinstance(it, ast.Call) and ast.unparse(it.func) == "range" and not it.keywords
+                    and 1 <= len(it.args) <= 3 and not st.orelse):
+                raise Untranslatable("inner loop " + u[:60])
+            a = list(it.args)
+            lo = a[0] if len(a) >= 2 else ast.Constant(value=0)
+            hi = a[1] if len(a) >= 2 else a[0]
+            stp = a[2] if len(a) == 3 else ast.Constant(value=1)
+            if not (isinstance(lo, ast.Constant) and type(lo.value) is int and lo.value >= 0 and isinstance(stp, ast.Constant) and type(stp.value) is int and stp.value > 0):
+                raise Untranslatable("range bounds " + ast.unparse(it))
+            v = st.target.id
+            if v in env or v in STATE or v in (DICT, FLAG, COUNT, RECV):
+                raise Untranslatable("inner loop variable " + v)
+            if any(isinstance(n, ast.Name) and n.id == v and not isinstance(n.ctx, ast.Load) for b in st.body for n in ast.walk(b)):
+                raise Untranslatable("inner loop variable is assigned")
+            if any(isinstance(n, ast.Break) for b in st.body for n in ast.walk(b)):
+                raise Untranslatable("break")
+            def mentions(n):
+                return any(isinstance(x, ast.Name) and x.id == n for b in st.body for x in ast.walk(b))
+            used = [n for n in env if n != RECV and mentions(n)]
+            name = "statFor_" + v
+            if any(d[0] == name for d in inner_defs):
+                raise Untranslatable("two inner loops over " + v)
+            env2 = {n: env[n] for n in used}
+            env2[RECV] = env[RECV]
+            env2[v] = ("v_" + v, "Nat")
+            tyname = {"Nat": "Nat", "Int": "Int", "Rat": "Rat", "Str": "Str", "ListStr": "List Str"}
+            # parameters: the flag and the record when the body mentions them, then the locals it mentions
+            params = (" (cigarStat : Bool)" if mentions(FLAG) else "") + (" (r : Rec)" if mentions(RECV) else "") \
+                + "".join(" (%s : %s)" % (env[n][0], tyname[env[n][1]]) for n in used)
+            actual = (" cigarStat" if mentions(FLAG) else "") + (" r" if mentions(RECV) else "") + "".join(" " + env[n][0] for n in used)
+            inner_defs.append((name, "/-- the body of `for %s in %s` -/\ndef %s%s (s : St) (v_%s : Nat) : St :=\n%s\n" % (
+                v, ast.unparse(it), name, params, v, ex(list(st.body), 2, env2))))
+            return upd("(pyRange %s %s %s).foldl (%s%s) s" % (
+                to_int(E(lo, env)), to_int(E(hi, env)), to_int(E(stp, env)), name, actual))
+        raise Untranslatable("loop statement: " + u[:70])
+
+    # ---- before the record loop: the initial values
+    init, flag_only = {}, set()
+
+    def pre(stmts, under_flag):
+        for st in stmts:
+            u = ast.unparse(st)
+            if is_doc(st):
+                continue
+            if isinstance(st, ast.Assign) and len(st.targets) == 1 and isinstance(st.targets[0], ast.Name):
+                nm = st.targets[0].id
+                if nm in STATE:
+                    if not (isinstance(st.value, ast.Constant) and type(st.value.value) is int and st.value.value >= 0):
+                        raise Untranslatable("initial value: " + u)
+                    if STATE[nm] in init:
+                        raise Untranslatable("%s initialised twice" % nm)
+                    init[STATE[nm]] = str(st.value.value)
+                    if under_flag:
+                        flag_only.add(nm)
+                    continue
+                if nm == DICT and not under_flag:
+                    if u not in (DICT + " = {}", DICT + " = dict()") or "reads" in init:
+                        raise Untranslatable("initial value: " + u)
+                    init["reads"] = "[]"
+                    continue
+                if nm in INFRA and not under_flag:
+                    if nm == FILEV and u != "%s = GAF(gaf_path)" % FILEV:
+                        raise Untranslatable("the records are read from: " + u)
+                    continue
+            if isinstance(st, ast.If) and ast.unparse(st.test) in ("output is None", "output is not None") and all(
+                    isinstance(x, ast.Assign) and ast.unparse(x.targets[0]) == "output" for x in st.body + st.orelse):
+                continue
+            if isinstance(st, ast.If) and isinstance(st.test, ast.Name) and st.test.id == FLAG and not st.orelse and not under_flag:
+                pre(st.body, True)
+                continue
+            raise Untranslatable("before the record loop: " + u[:70])
+    at = top.index(rec_loop)
+    pre(top[:at], False)
+    init["total"] = str(start - 1)
+    fields = ["total", "primary", "secondary", "bases", "mapqSum", "reads"]
+    cig = ["del", "delL", "ins", "insL", "x", "xL", "m", "mL", "perfect"]
+    missing = [f for f in fields + ["cig." + c for c in cig] if f not in init]
+    if missing:
+        raise Untranslatable("not initialised before the loop: %s" % missing)
+    # variables that exist only under the flag must only be touched under the flag
+
+    def under_flag(n):
+        c = n
+        while c in parents:
+            p = parents[c]
+            if isinstance(p, ast.If) and isinstance(p.test, ast.Name) and p.test.id == FLAG and any(c is x for x in p.body):
+                return True
+            c = p
+        return False
+    for n in ast.walk(fn):
+        if isinstance(n, ast.Name) and n.id in flag_only and not under_flag(n):
+            raise Untranslatable("%s is only defined under %s but used outside" % (n.id, FLAG))
+    if FILEV not in [st.targets[0].id for st in top[:at] if isinstance(st, ast.Assign) and isinstance(st.targets[0], ast.Name)]:
+        raise Untranslatable("%s is not opened before the loop" % FILEV)
+    step = ex(list(rec_loop.body), 2, {RECV: ("r", "Rec")})
+
+    # ---- after the loop: the sums over the reads and what is printed
+    env = {}
+    items = []            # (condition or None, label, value)
+
+    def sfmt(f):
+        return '"%s"' % f.replace("\\", "\\\\").replace('"', '\\"').replace("\t", "\\t").replace("\n", "\\n")
+
+    def rval(e):
+        if isinstance(e, ast.Call) and ast.unparse(e.func) == "round" and len(e.args) == 2 and not e.keywords \
+                and isinstance(e.args[1], ast.Constant) and type(e.args[1].value) is int and e.args[1].value >= 0:
+            x = E(e.args[0], env)
+            if x[1] != "Rat":
+                raise Untranslatable("round of " + ast.unparse(e.args[0]))
+            return ".round %s %d" % (x[0], e.args[1].value)
+        if isinstance(e, ast.BinOp) and isinstance(e.op, ast.Mod) and isinstance(e.left, ast.Constant) and isinstance(e.left.value, str):
+            args = e.right.elts if isinstance(e.right, ast.Tuple) else [e.right]
+            if e.left.value.count("%d") != len(args) or e.left.value.count("%") != len(args):
+                raise Untranslatable("format " + e.left.value[:40])
+            return ".fmt %s [%s]" % (sfmt(e.left.value), ", ".join(to_nat(E(a, env)) for a in args))
+        x = E(e, env)
+        if x[1] == "Nat":
+            return ".nat " + x[0]
+        raise Untranslatable("printed value " + ast.unparse(e)[:60])
+
+    def post(stmts, cond):
+        for st in stmts:
+            u = ast.unparse(st)
+            if is_doc(st):
+                continue
+            if isinstance(st, ast.Expr) and isinstance(st.value, ast.Call):
+                f = ast.unparse(st.value.func)
+                if f == FILEV + ".close" or f.startswith("logger.") or f == "log_memory_usage":
+                    continue
+                if f == "print":
+                    a = st.value.args
+                    kw = [(k.arg, ast.unparse(k.value)) for k in st.value.keywords]
+                    if not a and not kw:
+                        continue              # an empty line (on standard output)
+                    if kw != [("file", "output")]:
+                        raise Untranslatable("print keywords: " + u[:60])
+                    if len(a) == 2 and isinstance(a[0], ast.Constant) and isinstance(a[0].value, str):
+                        items.append((cond, sfmt(a[0].value), rval(a[1])))
+                        continue
+                    if len(a) == 1 and isinstance(a[0], ast.Constant) and isinstance(a[0].value, str):
+                        items.append((cond, sfmt(a[0].value), ".text"))
+                        continue
+                    if len(a) == 1:
+                        items.append((cond, '""', rval(a[0])))
+                        continue
+                raise Untranslatable("after the loop: " + u[:70])
+            if isinstance(st, ast.Assign) and len(st.targets) == 1 and isinstance(st.targets[0], ast.Name):
+                nm = st.targets[0].id
+                if nm in INFRA:
+                    continue
+                if nm in STATE or nm in (DICT, FLAG, COUNT, RECV) or cond:
+                    raise Untranslatable("after the loop: " + u[:70])
+                v = E(st.value, env)
+                if v[1] != "Rat":
+                    raise Untranslatable("after the loop: " + u[:70])
+                env[nm] = v
+                continue
+            if st is sum_loop:
+                accs = []
+                for b in st.body:
+                    if not (isinstance(b, ast.AugAssign) and isinstance(b.op, ast.Add) and isinstance(b.target, ast.Name) and b.target.id in env
+                            and b.target.id not in accs):
+                        raise Untranslatable("loop over the reads: " + ast.unparse(b)[:60])
+                    if any(isinstance(n, ast.Name) and n.id in env for n in ast.walk(b.value)):
+                        raise Untranslatable("loop over the reads: a sum depends on a sum")
+                    accs.append(b.target.id)
+                    t = to_rat(E(b.value, {rvar: ("v", "Read")}))
+                    env[b.target.id] = ("(s.reads.foldl (fun acc v => acc + %s) %s)" % (t, env[b.target.id][0]), "Rat")
+                continue
+            if isinstance(st, ast.AugAssign) and isinstance(st.op, ast.Div) and isinstance(st.target, ast.Name) and st.target.id in env and not cond:
+                env[st.target.id] = ("(%s / %s)" % (env[st.target.id][0], to_rat(E(st.value, env))), "Rat")
+                continue
+            if isinstance(st, ast.If) and isinstance(st.test, ast.Name) and st.test.id == FLAG and not st.orelse and cond is None:
+                post(st.body, "cigarStat")
+                continue
+            raise Untranslatable("after the loop: " + u[:70])
+    post(top[at + 1:], None)
+    chunks, cur, curc = [], [], None
+    for c, lab, v in items:
+        if c != curc and cur:
+            chunks.append((curc, cur))
+            cur = []
+        curc = c
+        cur.append("(%s, %s)" % (lab, v))
+    if cur:
+        chunks.append((curc, cur))
+    report = " ++\n  ".join(("[" + ",\n   ".join(c) + "]") if cnd is None else ("(if %s then [" % cnd + ",\n   ".join(c) + "] else [])") for cnd, c in chunks) or "[]"
+    head = "generated by harness/translate.py from gaftools/cli/stat.py : run_stat — initial counters, the body of the record loop and of the\n" \
+           "    loop over the CIGAR tokens translated statement by statement, the sums over the reads and the printed figures (floats as exact\n" \
+           "    rationals; a statement on which Python raises — KeyError, IndexError, ZeroDivisionError, int() of a non-number — has an\n" \
+           "    arbitrary defined value here) — do not edit"
+    return (_STAT_PRELUDE % head
+            + "".join(d[1] + "\n" for d in inner_defs)
+            + "/-- the body of `for %s, %s in enumerate(….read_file(), %d)`: the count is the previous one plus one -/\n" % (COUNT, RECV, start)
+            + "def statStep (cigarStat : Bool) (s : St) (r : Rec) : St :=\n  let s : St := { s with total := s.total + 1 }\n%s\n\n" % step
+            + "/-- the values assigned before the loop (`total` = the enumeration's start minus one) -/\n"
+            + "def statInit : St :=\n  { total := %s, primary := %s, secondary := %s, bases := %s, mapqSum := %s, reads := %s,\n    cig := { %s } }\n\n" % (
+                init["total"], init["primary"], init["secondary"], init["bases"], init["mapqSum"], init["reads"],
+                ", ".join("%s := %s" % (c, init["cig." + c]) for c in cig))
+            + "def statRun (cigarStat : Bool) (recs : List Rec) : St := recs.foldl (statStep cigarStat) statInit\n\n"
+            + "/-- the lines written to the report, in order: label and value, from the state after the loop -/\n"
+            + "def statReport (cigarStat : Bool) (s : St) : List (String × RVal) :=\n  %s\nend Gaftools.Gen\n" % report)
+
+
+def _ancestors(n, parents):
+    out = []
+    while n in parents:
+        n = parents[n]
+        out.append(n)
+    return out
+
+
+GENERATORS["StatLoop"] = gen_stat_loop
+
+
+# ---------------------------------------------------------------------------------------------------------
 # conversion.to_stable: everything before the twelve-column format statement, statement by statement (C01, C02):
 # the path split, the token loop (orientation bookkeeping, `nodes[nd]`), `out_node = [node_list[0]]`, the merge loop,
 # StableNode.to_string, the single-reference-interval test and both of its branches, and what columns 5-9 print.
@@ -3072,6 +3676,26 @@ def cmpGaf (al1 al2 : Aln) : Option Int := Gaftools.Sort.cmpGaf al1 al2
 end Gaftools.Gen
 """,
 }
+
+FALLBACK["StatLoop"] = _STAT_PRELUDE % "FALLBACK (source construct outside the translator's subset): run_stat as modelled by hand" + """def statFor_cnt (v_all_cigars : List Str) (s : St) (v_cnt : Nat) : St :=
+  { s with cig := bump s.cig (v_all_cigars.getD v_cnt [], v_all_cigars.getD (v_cnt + 1) []) }
+def statStep (cigarStat : Bool) (s : St) (r : Rec) : St := Gaftools.Stat.step cigarStat s r
+def statInit : St := {}
+def statRun (cigarStat : Bool) (recs : List Rec) : St := Gaftools.Stat.run cigarStat recs
+def statReport (cigarStat : Bool) (s : St) : List (String × RVal) :=
+  [("Total alignments:", .nat s.total),
+   ("\\tPrimary:", .nat s.primary),
+   ("\\tSecondary:", .nat s.secondary),
+   ("Reads with at least one alignment:", .nat s.reads.length),
+   ("Total aligned bases:", .nat s.bases),
+   ("Average mapping quality:", .round (avgMapq s) 1),
+   ("Average highest sequence identity:", .round (avgBestId s) 3),
+   ("Average highest map ratio:", .round (avgBestRatio s) 3)] ++
+  (if cigarStat then [("", .fmt "Cigar string statistics:\\n\\tTotal deletion regions: %d (%d >50bps)\\n\\tTotal insertion regions: %d (%d >50bps)\\n\\tTotal substitution regions: %d (%d >50bps)\\n\\tTotal match regions: %d (%d >50bps)" [s.cig.del, s.cig.delL, s.cig.ins, s.cig.insL, s.cig.x, s.cig.xL, s.cig.m, s.cig.mL]),
+   ("Total perfect alignments (exact match):", .nat s.cig.perfect)] else []) ++
+  [("* Numbers are based on primary alignments and the ones with >0 mapping quality", .text)]
+end Gaftools.Gen
+"""
 
 FALLBACK["ConvLoopS"] = r"""import Gaftools.Model.ConvText
 import Gaftools.Gen.MergeNodes
